@@ -31,10 +31,11 @@ Record cfg := mkCfg {
   fix_scale_key : bool;     (* EventDict.__call__ does not turn a Scale into an arrayed_param *)
   fix_pdelta_input : bool;  (* Pdelta embeds its pattern with the event received after the rest, not the first one *)
   fix_pchain_return : bool; (* Pchain returns the event it was sent, not a half-transformed copy, when a stream ends *)
-  fix_ppar_rest : bool      (* Ppar's filling rest lasts nexttime - now, not that times the input event's stretch again *)
+  fix_ppar_rest : bool;     (* Ppar's filling rest lasts nexttime - now, not that times the input event's stretch again *)
+  fix_pdur_pad : bool       (* the same for the rest with which Pdur(quant=...) pads a child that ended early *)
 }.
-Definition patched := mkCfg true true true true true true true true.
-Definition unpatched := mkCfg false false false false false false false false.
+Definition patched := mkCfg true true true true true true true true true.
+Definition unpatched := mkCfg false false false false false false false false false.
 
 Record kern := mkK { k_midicps : Q -> Q; k_cpsmidi : Q -> Q; k_dbamp : Q -> Q; k_ampdb : Q -> Q }.
 
@@ -428,6 +429,7 @@ Inductive pat :=
 | PPar (ps : list pat)
 | PDelta (t : value) (p : pat)
 | PDur (d : num) (p : pat)
+| PDurQ (d tol : num) (quant : option num) (p : pat)      (* Pdur(dur, pattern, tolerance, quant) with non-default arguments *)
 | PSeq (ps : list pat) (repeats : nat) (offset : Z)      (* Pseq(list of event patterns, repeats, offset) *)
 | PN (p : pat) (repeats : nat).                          (* Pn(pattern, repeats) *)
 
@@ -441,6 +443,7 @@ Inductive st :=
                                                             embedded with the FIRST input event *)
 | SDur (elapsed : num) (d : num) (s : st)
 | SDurEnd (s : st)                                       (* after "return (yield inevent)" *)
+| SDurQ (elapsed d tol : num) (quant : option num) (s : st)
 | SSeq (cur : option st) (rest : list pat)               (* inval = yield from stm.embed(item, inval), item after item *)
 | SDone.
 
@@ -452,6 +455,7 @@ Fixpoint init (p : pat) : st :=
   | PPar ps => SPar false spec_init (F 0) (map init ps)
   | PDelta t p => SDelta true t (init p)
   | PDur d p => SDur (F 0) d (init p)
+  | PDurQ d tol q p => SDurQ (F 0) d tol q (init p)
   | PSeq ps rep off =>
       let n := Z.of_nat (List.length ps) in
       let o := Z.to_nat (off mod n) in                    (* self.offset % len(lst) *)
@@ -485,6 +489,7 @@ Fixpoint pending_offs K (s : st) : list msg :=
   | SDeltaStale _ s' => pending_offs K s'
   | SDur _ _ s' => pending_offs K s'
   | SDurEnd s' => pending_offs K s'
+  | SDurQ _ _ _ _ s' => pending_offs K s'
   | SSeq (Some s') _ => pending_offs K s'
   | _ => []
   end.
@@ -611,6 +616,37 @@ Fixpoint snext (depth : nat) (s : st) (inev : event) (mc : nat) : res * nat :=
                         end in
               (RYield (put "delta" dv e) (SDurEnd s'') o, mc')
             else (RYield e (SDur next_elapsed d s'') o, mc')
+        end
+    | SDurQ elapsed d tol quant s' =>
+        (* the same loop with the tolerance given; when the child ends before dur and quant is given:
+           delta = bi.roundup(elapsed, quant) - elapsed; if delta > 0: inevent = yield evt.silent(delta, inevent) *)
+        match snext dep s' inev mc with
+        | (RStop o _, mc') =>
+            match quant with
+            | None => (RStop o inev, mc')
+            | Some q =>
+                let delta := nsub (py_roundup elapsed q) elapsed in
+                if ngt delta (F 0)
+                then let r := silent (VNum delta) inev in
+                     (RYield (if fix_pdur_pad c then put "delta" (VNum delta) r else r) (SDurEnd SDone) o, mc')
+                else (RStop o inev, mc')
+            end
+        | (RError, mc') => (RError, mc')
+        | (RYield e0 s'' o, mc') =>
+            if negb (fix_pdur_event c) && negb (is_evt e0) then (RError, mc')
+            else
+            let e := if fix_pdur_event c then as_event e0 else e0 in
+            let delta := ev_call K e "delta" in
+            let next_elapsed := nadd elapsed (pfloat (vnum delta)) in
+            if nge (py_roundup next_elapsed tol) d then
+              let remaining := nsub d elapsed in
+              let dv := match delta with
+                        | VRest _ => VRest remaining
+                        | VNum (I _) => if fix_pdur_int c then VNum remaining else VNum (pint remaining)
+                        | _ => VNum (pfloat remaining)
+                        end in
+              (RYield (put "delta" dv e) (SDurEnd s'') o, mc')
+            else (RYield e (SDurQ next_elapsed d tol quant s'') o, mc')
         end
     | SSeq cur rest =>
         (* Pseq / Pn: for item in ...: inval = yield from stm.embed(item, inval) -- the value an item returns is the
